@@ -202,5 +202,5 @@ Example C18_ex_premium :
     /\ length ow = 7%nat /\ nonnegl [1; 3] /\ nonnegl [1; 1] /\ 0 <= 1200.
 Proof.
   eexists. eexists. split; [vm_compute; reflexivity|]. split; [reflexivity|].
-  repeat split; try (repeat constructor; unfold Qle; simpl; lia). unfold Qle; simpl; lia.
+  repeat split; try (repeat constructor; unfold Qle; simpl; lia).
 Qed.
